@@ -77,6 +77,17 @@ Section C14.
       In b (nms l) \/ exists a, In a (nms l) /\ rank b <= rank a /\ covers a b = true.
   Proof. exact (nms_kept_or_covered_lemma B rank passes covers). Qed.
 
+  (* Completeness of the specification: the clauses above determine the output.  ANY subsequence of the stably
+     sorted passing candidates in which no box is covered by a higher-ranked member and which covers (by a
+     higher-ranked member) every candidate it leaves out IS the result of nms. *)
+  Theorem nms_unique : forall l (k : list (cand B)),
+      subseq k (sorted_idx l) ->
+      (forall a b, In a k -> In b k -> higher a b -> covers (snd a) (snd b) = false) ->
+      (forall c, In c (sorted_idx l) -> ~ In c k ->
+                 exists a, In a k /\ higher a c /\ covers (snd a) (snd c) = true) ->
+      k = nms_idx l.
+  Proof. exact (nms_unique_lemma B rank passes covers). Qed.
+
   (* Applying it again to its own output (each kept box carries its score along: B is box-with-score)
      changes nothing.  No hypothesis is needed: the output passes the filter, is already in stable
      descending order, and contains no covered pair. *)
